@@ -143,6 +143,8 @@ func (m *c11Mon) Observe(pre, post *cdpSnap, e *cdpEvent) {
 		}
 	}
 	// ---------- English auctions that ended in this event ----------
+	endedLots := map[string]map[string]*big.Int{} // lot denom -> winner account -> total lot
+	endedTag := map[string]string{}
 	for id, a := range pre.AucV2 {
 		if a.AuctionType {
 			continue
@@ -165,23 +167,17 @@ func (m *c11Mon) Observe(pre, post *cdpSnap, e *cdpEvent) {
 			lot = win.CollateralTokenAmount.Amount.BigInt()
 			lotDenom = win.CollateralTokenAmount.Denom
 		}
-		receivers := 0
-		for _, ac := range u.c.Accts {
-			got := bigSub(post.bal(ac.Name, lotDenom), pre.bal(ac.Name, lotDenom))
-			if ac.Addr.String() == win.BidderAddress {
-				if got.Cmp(lot) == 0 {
-					receivers++
-				} else {
-					det["winner_received"] = got.String()
-					m.rec.Violate("C11/english/"+lv.InitiatorType+"/winner-did-not-receive-the-lot", fmt.Sprintf("winner received %s of %s, lot is %s", got, lotDenom, lot), det)
-				}
-				continue
-			}
-			if got.Sign() > 0 && e.Kind == "block" {
-				receivers++
-				m.rec.Violate("C11/english/"+lv.InitiatorType+"/lot-paid-to-non-winner", fmt.Sprintf("%s received %s %s", ac.Name, got, lotDenom), det)
-			}
+		// receipts are checked after the loop, over all auctions that ended in this event
+		// (two auctions can end in the same block with different winners)
+		if endedLots[lotDenom] == nil {
+			endedLots[lotDenom] = map[string]*big.Int{}
 		}
+		wn := m.acctName(win.BidderAddress)
+		if endedLots[lotDenom][wn] == nil {
+			endedLots[lotDenom][wn] = new(big.Int)
+		}
+		endedLots[lotDenom][wn].Add(endedLots[lotDenom][wn], lot)
+		endedTag[lotDenom] = lv.InitiatorType
 		// no one but the winner has lost anything over the auction's life
 		for acct, byDenom := range m.net[id] {
 			for d, n := range byDenom {
@@ -197,6 +193,25 @@ func (m *c11Mon) Observe(pre, post *cdpSnap, e *cdpEvent) {
 			}
 		}
 		delete(m.net, id)
+	}
+	if e.Kind == "block" {
+		for lotDenom, byWinner := range endedLots {
+			for _, ac := range u.c.Accts {
+				got := bigSub(post.bal(ac.Name, lotDenom), pre.bal(ac.Name, lotDenom))
+				want := byWinner[ac.Name]
+				if want == nil {
+					want = new(big.Int)
+				}
+				m.rec.Eval(1)
+				if got.Cmp(want) != 0 {
+					lab := "lot-paid-to-non-winner"
+					if want.Sign() > 0 {
+						lab = "winner-did-not-receive-the-lot"
+					}
+					m.rec.Violate("C11/english/"+endedTag[lotDenom]+"/"+lab, fmt.Sprintf("%s received %s %s in the block that ended the auction(s), the lots it won amount to %s", ac.Name, got, lotDenom, want), map[string]interface{}{"event": e.String()})
+				}
+			}
+		}
 	}
 	// ---------- limit bids ----------
 	// recorded total == sum of individual deposits, and fully in custody
